@@ -7,6 +7,7 @@ tag incl. `0 = None`), parameters over all values.  A hypothesis is present only
 code itself needs it (`det ≠ 0` for the inverse, `0 < factor` for "covers", …).
 -/
 import OdcGeo.Model.C02
+import OdcGeo.Model.C08
 import OdcGeo.Spec.PySlice
 import OdcGeo.Lemmas.Affine
 import OdcGeo.Lemmas.C02
@@ -1052,5 +1053,551 @@ theorem gcp_exact_when_affine (P : Pt → Pt) (B : Aff) (hP : ∀ q, P q = B.app
     gcpPix2wld P g p = pix2wld (gcpApprox B g) p ∧
     (gcpApprox B g).ny = g.ny ∧ (gcpApprox B g).nx = g.nx ∧ (gcpApprox B g).crs = g.crs := by
   simp [gcpPix2wld, gcpApprox, mulWld, pix2wld, hP, Aff.apply_mul]
+
+
+/-! ## 7. views of views: determinants, invertibility, chains -/
+
+theorem det_mulPix (g : GeoBox) (T : Aff) : (mulPix g T).A.det = g.A.det * T.det := by
+  simp [mulPix, Aff.det_mul]
+
+/-- The pixel-side affine of every view stays invertible: crops, pads, translations, centre
+pixel and buffers keep the determinant, flips negate it, zooms multiply it by the (non-zero)
+zoom factors. -/
+theorem views_det (g : GeoBox) :
+    (∀ roi, (crop g roi).A.det = g.A.det) ∧
+    (∀ px py, (pad g px py).A.det = g.A.det) ∧
+    (∀ tx ty, (translatePix g tx ty).A.det = g.A.det) ∧
+    (flipx g).A.det = -g.A.det ∧ (flipy g).A.det = -g.A.det ∧
+    (centerPixel g).A.det = g.A.det ∧
+    (∀ f g', zoomOut g f = .ok g' → g'.A.det = g.A.det * (f * f) ∧ f ≠ 0) ∧
+    (∀ ny nx g', zoomToShape g ny nx = .ok g' →
+        g'.A.det = g.A.det * (((g.nx : Rat) / nx) * ((g.ny : Rat) / ny)) ∧ ny ≠ 0 ∧ nx ≠ 0) ∧
+    (∀ k g', scaledDown g k = .ok g' → g'.A.det = g.A.det * ((k : Rat) * k) ∧ 1 < k) ∧
+    (∀ n m xb yb g', buffered g n m xb yb = .ok g' → g'.A.det = g.A.det) := by
+  refine ⟨?_, ?_, ?_, ?_, ?_, ?_, ?_, ?_, ?_, ?_⟩
+  · intro roi; cases roi <;> simp [crop, Aff.det_mul, Aff.det_translation]
+  · intro px py; cases py <;> simp [pad, Aff.det_mul, Aff.det_translation]
+  · intro tx ty; simp [translatePix, mulPix, Aff.det_mul, Aff.det_translation]
+  · simp [flipx, mulPix, Aff.det_mul, Aff.det_translation, Aff.det_scale]
+  · simp [flipy, mulPix, Aff.det_mul, Aff.det_translation, Aff.det_scale]
+  · simp [centerPixel, crop, Aff.det_mul, Aff.det_translation]
+  · intro f g' h
+    by_cases hf : f = 0
+    · simp [zoomOut, hf] at h
+    · simp [zoomOut, hf] at h; subst h
+      exact ⟨by simp [Aff.det_mul, Aff.det_scale], hf⟩
+  · intro ny nx g' h
+    by_cases h0 : ny = 0 ∨ nx = 0
+    · simp [zoomToShape, h0] at h
+    · simp [zoomToShape, h0] at h; subst h
+      rw [not_or] at h0
+      exact ⟨by simp [Aff.det_mul, Aff.det_scale], h0.1, h0.2⟩
+  · intro k g' h
+    have := scaled_down_covers g g' k h (0, 0)
+    by_cases hk : k > 1
+    · simp [scaledDown, hk] at h; subst h
+      exact ⟨by simp [Aff.det_mul, Aff.det_scale], hk⟩
+    · simp [scaledDown, hk] at h
+  · intro n m xb yb g' h
+    obtain ⟨rx, ry, bx, by_, _, _, _, _, hp, _⟩ := buffered_covers g g' n m xb yb h
+    have hA : g'.A = g.A * Aff.translation (-(bx : Rat)) (-(by_ : Rat)) := by
+      apply aff_ext_of_apply
+      intro p
+      have := hp p
+      simp only [pix2wld] at this
+      rw [this, Aff.apply_mul, Aff.apply_translation]
+      simp [sub_eq_add_neg]
+    rw [hA]; simp [Aff.det_mul, Aff.det_translation]
+
+
+/-- GCP geobox, **zoom then crop then pad** (any factor, any index expressions, any pads):
+world→pixel inverts pixel→world through the composed pixel-side affine, for every mapping
+whose `w2p` inverts its `p2w`.  (Single operations keep either unit scale or zero offset; the
+composition has neither.) -/
+theorem gcp_chain_inverse (P Q : Pt → Pt) (hQP : ∀ q, Q (P q) = q) (g g1 : GeoBox)
+    (hd : g.A.det ≠ 0) (f : Rat) (hz : zoomOut g f = .ok g1) (sy sx : PIdx) (px : Int)
+    (py : Option Int) (p : Pt) :
+    gcpWld2pix Q (pad (crop g1 (.two sy sx)) px py) (gcpPix2wld P (pad (crop g1 (.two sy sx)) px py) p)
+      = .ok p := by
+  apply gcp_wld2pix_pix2wld P Q hQP
+  obtain ⟨hdet, hf⟩ := (views_det g).2.2.2.2.2.2.1 f g1 hz
+  rw [(views_det (crop g1 (.two sy sx))).2.1, (views_det g1).1, hdet]
+  exact mul_ne_zero hd (mul_ne_zero hf hf)
+
+/-- … and pixel `p` of that composed view is pixel `f·(p + (x0−px, y0−py))` of the original. -/
+theorem gcp_chain_pixel (P : Pt → Pt) (g g1 : GeoBox) (f : Rat) (hz : zoomOut g f = .ok g1)
+    (sy sx : PIdx) (px py : Int) (p : Pt) :
+    gcpPix2wld P (pad (crop g1 (.two sy sx)) px (some py)) p
+      = gcpPix2wld P g (f * (p.1 - px + ((normSlice sx g1.nx).start : Rat)),
+                        f * (p.2 - py + ((normSlice sy g1.ny).start : Rat))) := by
+  have h1 := (pad_pixel (crop g1 (.two sy sx)) px (some py) p).1
+  have h2 := fun q => (crop_pixel g1 sy sx q).1
+  have h3 := fun q => (zoom_out_pixel g g1 f hz q).1
+  simp only [pix2wld] at h1 h2 h3
+  simp only [gcpPix2wld, h1, h2, h3, Option.getD]
+
+/-! ### region crop: the window is (region ∩ image) rounded outward -/
+
+/-- Exact description of `gbox[region]` for a non-empty vertex list (already in pixel
+coordinates): with `mx, Mx` the extreme x of the region, the window starts at column
+`L = max ⌊mx⌋ 0`, i.e. `L ≤ max mx 0 < L + 1`, and ends at `R = min ⌈Mx⌉ nx`, i.e.
+`R − 1 < min Mx nx ≤ R` (same for rows): the smallest whole-pixel window containing the part
+of the region's bounding box inside the image; its width is `max 1 (R − L)` (one pixel for a
+degenerate or outside region), and the part cut off at the left / top does **not** widen it. -/
+theorem crop_region_tight (g : GeoBox) (p0 : Pt) (ps : List Pt) :
+    let xs := (p0 :: ps).map (·.1); let ys := (p0 :: ps).map (·.2)
+    let mx := C17.minL 0 xs; let Mx := C17.maxL 0 xs; let my := C17.minL 0 ys; let My := C17.maxL 0 ys
+    let L := max mx.floor 0; let R := min Mx.ceil g.nx; let B := max my.floor 0; let T := min My.ceil g.ny
+    ∃ g', cropRegionPix g (p0 :: ps) = .ok g' ∧ g'.nx = max 1 (R - L) ∧ g'.ny = max 1 (T - B) ∧
+      g'.crs = g.crs ∧ (∀ q : Pt, pix2wld g' q = pix2wld g (q.1 + L, q.2 + B)) ∧
+      (L : Rat) ≤ max mx 0 ∧ max mx 0 < (L : Rat) + 1 ∧ min Mx g.nx ≤ (R : Rat) ∧ (R : Rat) - 1 < min Mx g.nx ∧
+      (B : Rat) ≤ max my 0 ∧ max my 0 < (B : Rat) + 1 ∧ min My g.ny ≤ (T : Rat) ∧ (T : Rat) - 1 < min My g.ny := by
+  intro xs ys mx Mx my My L R B T
+  have wr : ∀ (n a : Int), 0 ≤ a → wrapNeg n a = a := by intro n a ha; simp [wrapNeg, ha]
+  have hL : (0 : Int) ≤ L := le_max_right _ _
+  have hB : (0 : Int) ≤ B := le_max_right _ _
+  have lo1 : ∀ m : Rat, ((max m.floor 0 : Int) : Rat) ≤ max m 0 := by
+    intro m; rw [Int.cast_max]; exact max_le_max (Rat.floor_le _) (by simp)
+  have lo2 : ∀ m : Rat, max m 0 < ((max m.floor 0 : Int) : Rat) + 1 := by
+    intro m; rw [Int.cast_max]
+    have h1 : m < (m.floor : Rat) + 1 := by have := Rat.lt_floor_add_one m; push_cast at this; exact this
+    rcases le_total m 0 with h | h
+    · rw [max_eq_right h]; have : (0 : Rat) ≤ max ((m.floor : Int) : Rat) ((0 : Int) : Rat) := by simp
+      linarith
+    · rw [max_eq_left h]; have : ((m.floor : Int) : Rat) ≤ max ((m.floor : Int) : Rat) ((0 : Int) : Rat) := le_max_left _ _
+      linarith
+  have hi1 : ∀ (m : Rat) (n : Int), min m n ≤ ((min m.ceil n : Int) : Rat) := by
+    intro m n; rw [Int.cast_min]; exact min_le_min Rat.le_ceil (le_refl _)
+  have hi2 : ∀ (m : Rat) (n : Int), ((min m.ceil n : Int) : Rat) - 1 < min m n := by
+    intro m n; rw [Int.cast_min]
+    have h1 : (m.ceil : Rat) < m + 1 := Rat.ceil_lt
+    rcases le_total m.ceil n with h | h
+    · have hc : ((m.ceil : Int) : Rat) ≤ (n : Rat) := by exact_mod_cast h
+      rw [min_eq_left hc]; apply lt_min <;> linarith
+    · have hc : (n : Rat) ≤ ((m.ceil : Int) : Rat) := by exact_mod_cast h
+      rw [min_eq_right hc]; apply lt_min <;> linarith
+  refine ⟨_, rfl, ?_, ?_, rfl, ?_, lo1 mx, lo2 mx, hi1 Mx g.nx, hi2 Mx g.nx, lo1 my, lo2 my, hi1 My g.ny, hi2 My g.ny⟩
+  · simp only [crop, normSlice]; rw [wr _ _ hL, wr _ _ (by omega)]
+    simp only [L, R, mx, Mx, xs]; omega
+  · simp only [crop, normSlice]; rw [wr _ _ hB, wr _ _ (by omega)]
+    simp only [B, T, my, My, ys]; omega
+  · intro q
+    rw [(crop_pixel g _ _ q).1]
+    simp only [normSlice]; rw [wr _ _ hL, wr _ _ hB]
+
+/-- the hypotheses are satisfiable, and the overhang over the left edge does not widen the window:
+a region spanning columns `[-6, 5.5]` of a 20-column image gives columns `0:6` (not `0:12`). -/
+theorem crop_region_left_overhang_example :
+    cropRegionPix ⟨10, 20, Aff.id, 1⟩ [(-6, 2), (11 / 2, 3)] = .ok ⟨1, 6, ⟨1, 0, 0, 0, 1, 2⟩, 1⟩ := by
+  decide +kernel
+
+/-! ### resolution of a sheared grid -/
+
+/-- For a rotated / sheared grid `resolution.y` is the signed distance between consecutive
+pixel rows (`det / |column 0|`), never longer than the slanted pixel edge `(b, e)`, and equal
+to it in length exactly when the pixel edges are orthogonal; `|rx · ry|` is the pixel area. -/
+theorem resolution_sheared_row_distance (g : GeoBox) (hns : isAffineST g.A = false) (hdet : g.A.det ≠ 0)
+    (n m : Rat) (hn : 0 < n) (hn2 : n * n = g.A.a * g.A.a + g.A.d * g.A.d) (hm : 0 < m)
+    (hm2 : m * m = g.A.b * g.A.b + g.A.e * g.A.e
+              - ((g.A.a * g.A.b + g.A.d * g.A.e) / n) * ((g.A.a * g.A.b + g.A.d * g.A.e) / n)) :
+    ∃ rx ry, resolution g n m = .ok (rx, ry) ∧ ry = g.A.det / rx ∧ |rx * ry| = |g.A.det| ∧
+      ry * ry ≤ g.A.b * g.A.b + g.A.e * g.A.e ∧
+      (ry * ry = g.A.b * g.A.b + g.A.e * g.A.e ↔ g.A.a * g.A.b + g.A.d * g.A.e = 0) := by
+  obtain ⟨rx, ry, hr, hrx, _, hprod⟩ := resolution_rotated g hns hdet n m hn hn2 hm hm2
+  have hrx0 : rx ≠ 0 := by rw [hrx]; exact ne_of_gt hn
+  have hry2 : ry * ry = m * m := by
+    unfold resolution at hr
+    simp only [hns, hdet, if_false, Bool.false_eq_true, Except.ok.injEq, Prod.mk.injEq] at hr
+    obtain ⟨_, h2⟩ := hr
+    split at h2 <;> rw [← h2] <;> ring
+  have hw : 0 ≤ ((g.A.a * g.A.b + g.A.d * g.A.e) / n) * ((g.A.a * g.A.b + g.A.d * g.A.e) / n) :=
+    mul_self_nonneg _
+  refine ⟨rx, ry, hr, by field_simp; linarith [hprod], by rw [hprod], by rw [hry2, hm2]; linarith, ?_⟩
+  rw [hry2, hm2]
+  constructor
+  · intro h
+    have h0 : ((g.A.a * g.A.b + g.A.d * g.A.e) / n) * ((g.A.a * g.A.b + g.A.d * g.A.e) / n) = 0 := by linarith
+    have := mul_self_eq_zero.mp h0
+    rcases div_eq_zero_iff.mp this with h | h
+    · exact h
+    · exact absurd h (ne_of_gt hn)
+  · intro h; rw [h]; simp
+
+/-- The slanted-edge length is *not* the resolution of a sheared grid: for the unit shear
+`[[1, 1], [0, 1]]` the row distance is 1 while the edge `(1, 1)` has squared length 2. -/
+theorem resolution_sheared_not_edge_length_cex :
+    resolution ⟨3, 3, ⟨1, 1, 0, 0, 1, 0⟩, 0⟩ 1 1 = .ok (1, 1) ∧ ((1 : Rat) * 1 ≠ 1 * 1 + 1 * 1) := by
+  decide +kernel
+
+
+/-! ### alignment -/
+
+/-- `alignment`: the offset of the pixel edges from the grid through the CRS origin,
+`0 ≤ al < |pixel size|` with `translation − al` a whole number of pixels; it needs non-zero
+diagonal terms (`ZeroDivisionError` otherwise, e.g. for a grid rotated by 90°). -/
+theorem alignment_spec (g : GeoBox) :
+    (∀ ax ay, alignment g = .ok (ax, ay) →
+      g.A.a ≠ 0 ∧ g.A.e ≠ 0 ∧ 0 ≤ ax ∧ ax < |g.A.a| ∧ 0 ≤ ay ∧ ay < |g.A.e| ∧
+      (∃ k : Int, g.A.c = ax + k * |g.A.a|) ∧ (∃ k : Int, g.A.f = ay + k * |g.A.e|)) ∧
+    ((∃ e, alignment g = .error e) ↔ (g.A.a = 0 ∨ g.A.e = 0)) := by
+  have key : ∀ (x m r : Rat), pyFMod x m = .ok r → 0 < m → 0 ≤ r ∧ r < m ∧ ∃ k : Int, x = r + k * m := by
+    intro x m r h hm
+    have hm0 : m ≠ 0 := ne_of_gt hm
+    simp [pyFMod, hm0] at h
+    subst h
+    have e : x / m * m = x := by field_simp
+    have h1 : ((x / m).floor : Rat) * m ≤ x / m * m := mul_le_mul_of_nonneg_right (Rat.floor_le _) (le_of_lt hm)
+    have h2' : x / m < ((x / m).floor : Rat) + 1 := by
+      have := Rat.lt_floor_add_one (x / m); push_cast at this; exact this
+    have h2 : x / m * m < (((x / m).floor : Rat) + 1) * m := mul_lt_mul_of_pos_right h2' hm
+    refine ⟨by linarith, by linarith, (x / m).floor, by ring⟩
+  have hz : ∀ (x m : Rat), (∃ e, pyFMod x m = .error e) ↔ m = 0 := by
+    intro x m; by_cases h : m = 0 <;> simp [pyFMod, h]
+  have habs : ∀ v : Rat, rabs v = 0 ↔ v = 0 := by intro v; rw [rabs_eq_abs]; exact abs_eq_zero
+  constructor
+  · intro ax ay h
+    unfold alignment at h
+    cases hx : pyFMod g.A.c (rabs g.A.a) with
+    | error e => simp [hx, bind, Except.bind] at h
+    | ok rx =>
+      cases hy : pyFMod g.A.f (rabs g.A.e) with
+      | error e => simp [hx, hy, bind, Except.bind] at h
+      | ok ry =>
+        simp [hx, hy, bind, Except.bind, pure, Except.pure] at h
+        obtain ⟨rfl, rfl⟩ := h
+        have ha : g.A.a ≠ 0 := fun h0 => by
+          have := (hz g.A.c (rabs g.A.a)).mpr ((habs _).mpr h0); rw [hx] at this; obtain ⟨_, h'⟩ := this; cases h'
+        have he : g.A.e ≠ 0 := fun h0 => by
+          have := (hz g.A.f (rabs g.A.e)).mpr ((habs _).mpr h0); rw [hy] at this; obtain ⟨_, h'⟩ := this; cases h'
+        have pa : 0 < rabs g.A.a := by rw [rabs_eq_abs]; exact abs_pos.mpr ha
+        have pe : 0 < rabs g.A.e := by rw [rabs_eq_abs]; exact abs_pos.mpr he
+        obtain ⟨a1, a2, a3⟩ := key _ _ _ hx pa
+        obtain ⟨b1, b2, b3⟩ := key _ _ _ hy pe
+        rw [rabs_eq_abs] at a2 a3 b2 b3
+        exact ⟨ha, he, a1, a2, b1, b2, a3, b3⟩
+  · unfold alignment
+    constructor
+    · rintro ⟨e, h⟩
+      cases hx : pyFMod g.A.c (rabs g.A.a) with
+      | error e' => exact Or.inl ((habs _).mp ((hz _ _).mp ⟨e', hx⟩))
+      | ok rx =>
+        cases hy : pyFMod g.A.f (rabs g.A.e) with
+        | error e' => exact Or.inr ((habs _).mp ((hz _ _).mp ⟨e', hy⟩))
+        | ok ry => simp [hx, hy, bind, Except.bind, pure, Except.pure] at h
+    · rintro (h | h)
+      · obtain ⟨e, he⟩ := (hz g.A.c (rabs g.A.a)).mpr ((habs _).mpr h)
+        exact ⟨e, by simp [he, bind, Except.bind]⟩
+      · cases hx : pyFMod g.A.c (rabs g.A.a) with
+        | error e' => exact ⟨e', by simp [bind, Except.bind]⟩
+        | ok rx =>
+          obtain ⟨e, he⟩ := (hz g.A.f (rabs g.A.e)).mpr ((habs _).mpr h)
+          exact ⟨e, by simp [he, bind, Except.bind]⟩
+
+/-! ### enclosing -/
+
+/-- `enclosing(region)`: a geobox on the **same pixel grid** (integer pixel offset `(l, b)`,
+same crs) that contains every vertex of the region — no clipping to the parent. -/
+theorem enclosing_covers (g g' : GeoBox) (pts : List Pt) (h : enclosing g pts = .ok g') (w : Pt) (hw : w ∈ pts) :
+    g.A.det ≠ 0 ∧ g'.crs = g.crs ∧ 1 ≤ g'.nx ∧ 1 ≤ g'.ny ∧
+    ∃ (l b : Int) (q : Pt), (∀ r : Pt, pix2wld g' r = pix2wld g (r.1 + l, r.2 + b)) ∧
+      pix2wld g' q = w ∧ 0 ≤ q.1 ∧ q.1 ≤ g'.nx ∧ 0 ≤ q.2 ∧ q.2 ≤ g'.ny := by
+  unfold enclosing Aff.inv? at h
+  by_cases hd : g.A.det = 0
+  · simp [hd, bind, Except.bind] at h
+  · simp only [hd, if_false, bind, Except.bind] at h
+    have hmem : g.A.inv.apply w ∈ pts.map g.A.inv.apply := List.mem_map_of_mem hw
+    cases hp : pts.map g.A.inv.apply with
+    | nil => rw [hp] at hmem; cases hmem
+    | cons p0 ps =>
+      rw [hp] at h hmem
+      simp only [pure, Except.pure, Except.ok.injEq] at h
+      subst h
+      have hx : (g.A.inv.apply w).1 ∈ (p0 :: ps).map (·.1) := List.mem_map_of_mem hmem
+      have hy : (g.A.inv.apply w).2 ∈ (p0 :: ps).map (·.2) := List.mem_map_of_mem hmem
+      generalize (p0 :: ps).map (·.1) = xs at hx ⊢
+      generalize (p0 :: ps).map (·.2) = ys at hy ⊢
+      have fl : ∀ (l : List Rat) (v : Rat), v ∈ l → ((C17.minL 0 l).floor : Rat) ≤ v :=
+        fun l v hv => le_trans (Rat.floor_le _) (minL_le 0 l v hv)
+      have ce : ∀ (l : List Rat) (v : Rat), v ∈ l → v ≤ ((C17.maxL 0 l).ceil : Rat) :=
+        fun l v hv => le_trans (le_maxL 0 l v hv) Rat.le_ceil
+      refine ⟨hd, rfl, le_max_left _ _, le_max_left _ _, (C17.minL 0 xs).floor, (C17.minL 0 ys).floor,
+        ((g.A.inv.apply w).1 - ((C17.minL 0 xs).floor : Rat), (g.A.inv.apply w).2 - ((C17.minL 0 ys).floor : Rat)),
+        ?_, ?_, by have := fl xs _ hx; simp only; linarith, ?_, by have := fl ys _ hy; simp only; linarith, ?_⟩
+      · intro r; simp [pix2wld, Aff.apply_mul, Aff.apply_translation]
+      · simp only [pix2wld, Aff.apply_mul, Aff.apply_translation, sub_add_cancel]
+        exact Aff.apply_inv_apply g.A hd w
+      · have h1 := ce xs _ hx
+        have h2 : (((C17.maxL 0 xs).ceil : Int) : Rat) - (((C17.minL 0 xs).floor : Int) : Rat) ≤
+            ((max 1 ((C17.maxL 0 xs).ceil - (C17.minL 0 xs).floor) : Int) : Rat) := by
+          have : (C17.maxL 0 xs).ceil - (C17.minL 0 xs).floor ≤ max 1 ((C17.maxL 0 xs).ceil - (C17.minL 0 xs).floor) :=
+            le_max_right _ _
+          have h3 := (Int.cast_le (R := Rat)).mpr this
+          rw [Int.cast_sub] at h3; exact h3
+        simp only; linarith
+      · have h1 := ce ys _ hy
+        have h2 : (((C17.maxL 0 ys).ceil : Int) : Rat) - (((C17.minL 0 ys).floor : Int) : Rat) ≤
+            ((max 1 ((C17.maxL 0 ys).ceil - (C17.minL 0 ys).floor) : Int) : Rat) := by
+          have : (C17.maxL 0 ys).ceil - (C17.minL 0 ys).floor ≤ max 1 ((C17.maxL 0 ys).ceil - (C17.minL 0 ys).floor) :=
+            le_max_right _ _
+          have h3 := (Int.cast_le (R := Rat)).mpr this
+          rw [Int.cast_sub] at h3; exact h3
+        simp only; linarith
+
+example : enclosing ⟨10, 20, ⟨2, 0, 100, 0, -2, 50⟩, 1⟩ [(90, 60), (107, 41)]
+    = .ok ⟨10, 9, ⟨2, 0, 90, 0, -2, 60⟩, 1⟩ := by decide +kernel
+
+/-! ### gcps(), map_bounds, algebraic laws of the views -/
+
+/-- `gcps()` of a view: every returned `(col, row)` is the place where the view's own
+pixel→world function takes the value of the mapping at the original control-point pixel,
+and the world coordinates are untouched. -/
+theorem gcps_consistent (P : Pt → Pt) (g : GeoBox) (cps out : List (Pt × Pt)) (h : gcpGcps g cps = .ok out) :
+    g.A.det ≠ 0 ∧ out.map (fun cp => gcpPix2wld P g cp.1) = cps.map (fun cp => P cp.1) ∧
+    out.map (·.2) = cps.map (·.2) := by
+  unfold gcpGcps Aff.inv? at h
+  by_cases hd : g.A.det = 0
+  · simp [hd, bind, Except.bind] at h
+  · simp only [hd, if_false, bind, Except.bind, pure, Except.pure, Except.ok.injEq] at h
+    subst h
+    refine ⟨hd, ?_, ?_⟩
+    · simp only [List.map_map]; congr 1; funext cp
+      simp [gcpPix2wld, Aff.apply_inv_apply g.A hd]
+    · simp only [List.map_map]; congr 1
+
+theorem map_bounds_corners (g : GeoBox) :
+    mapBounds g = (((pix2wld g (0, 0)).2, (pix2wld g (0, 0)).1),
+                   ((pix2wld g (g.nx, g.ny)).2, (pix2wld g (g.nx, g.ny)).1)) ∧
+    (extent g)[0]? = some (pix2wld g (0, 0)) ∧ (extent g)[2]? = some (pix2wld g (g.nx, g.ny)) := by
+  simp [mapBounds, extent, corners, pix2wld]
+
+/-- Flips are involutions, pixel translations add up, neighbours cancel, a rotation by the
+zero angle and a pad by zero are the identity. -/
+theorem view_algebra (g : GeoBox) :
+    flipx (flipx g) = g ∧ flipy (flipy g) = g ∧
+    (∀ a b c d : Rat, translatePix (translatePix g a b) c d = translatePix g (a + c) (b + d)) ∧
+    left (right g) = g ∧ right (left g) = g ∧ top (bottom g) = g ∧ bottom (top g) = g ∧
+    rotate g 1 0 = g ∧ pad g 0 (some 0) = g ∧ pad g 0 none = g ∧ translatePix g 0 0 = g := by
+  obtain ⟨ny, nx, ⟨a, b, c, d, e, f⟩, crs⟩ := g
+  refine ⟨?_, ?_, ?_, ?_, ?_, ?_, ?_, ?_, ?_, ?_, ?_⟩ <;>
+    simp [flipx, flipy, translatePix, left, right, top, bottom, rotate, rotationAbout, pad, mulPix, mulWld,
+      Aff.mul_def, Aff.mul, Aff.translation, Aff.scale, Aff.apply] <;>
+    (try intros) <;> (try refine ⟨?_, ?_⟩) <;> ring_nf
+
+
+
+/-! ## 8. boundary sampling, buffered containment -/
+
+theorem linspace_get (N : Int) (n i : Nat) (hn : 2 ≤ n) (hi : i < n) :
+    (linspace N n)[i]? = some ((i : Rat) * ((N : Rat) / ((n : Rat) - 1))) := by
+  have h1 : n ≠ 1 := by omega
+  simp [linspace, h1, hi]
+
+theorem edgeIndex_mem (n : Nat) (hn : 2 ≤ n) (ij : Nat × Nat) (h : ij ∈ edgeIndex n) :
+    ij.1 < n ∧ ij.2 < n ∧ (ij.1 = 0 ∨ ij.1 = n - 1 ∨ ij.2 = 0 ∨ ij.2 = n - 1) := by
+  simp only [edgeIndex, List.mem_append, List.mem_map, List.mem_range, List.mem_reverse] at h
+  rcases h with ((⟨i, hi, rfl⟩ | ⟨j, hj, rfl⟩) | ⟨i, hi, rfl⟩) | ⟨j, hj, rfl⟩ <;> simp <;> omega
+
+/-- `boundary(n)` (`n ≥ 2` points per side): every sample lies on the edge of the pixel
+rectangle `[0, nx] × [0, ny]`, and the four corners are among the samples — so the footprint
+of a GCP geobox (`gcpExtent`: these samples pushed through pix2wld) passes through the images
+of the corners. -/
+theorem boundary_on_edge (g : GeoBox) (n : Nat) (hn : 2 ≤ n) (hny : 0 ≤ g.ny) (hnx : 0 ≤ g.nx) :
+    (∀ p ∈ boundary g n, 0 ≤ p.1 ∧ p.1 ≤ g.nx ∧ 0 ≤ p.2 ∧ p.2 ≤ g.ny ∧
+        (p.1 = 0 ∨ p.1 = g.nx ∨ p.2 = 0 ∨ p.2 = g.ny)) ∧
+    ((0 : Rat), (0 : Rat)) ∈ boundary g n ∧ ((g.nx : Rat), (0 : Rat)) ∈ boundary g n ∧
+    ((g.nx : Rat), (g.ny : Rat)) ∈ boundary g n ∧ ((0 : Rat), (g.ny : Rat)) ∈ boundary g n := by
+  have hn1 : (0 : Rat) < (n : Rat) - 1 := by
+    have : (2 : Rat) ≤ (n : Rat) := by exact_mod_cast hn
+    linarith
+  have val : ∀ (N : Int) (i : Nat), 0 ≤ N → i < n →
+      0 ≤ (i : Rat) * ((N : Rat) / ((n : Rat) - 1)) ∧ (i : Rat) * ((N : Rat) / ((n : Rat) - 1)) ≤ N ∧
+      (i = 0 → (i : Rat) * ((N : Rat) / ((n : Rat) - 1)) = 0) ∧
+      (i = n - 1 → (i : Rat) * ((N : Rat) / ((n : Rat) - 1)) = N) := by
+    intro N i hN hi
+    have hNr : (0 : Rat) ≤ (N : Rat) := by exact_mod_cast hN
+    have hi0 : (0 : Rat) ≤ (i : Rat) := by exact_mod_cast Nat.zero_le i
+    have hi1 : (i : Rat) ≤ (n : Rat) - 1 := by
+      have : (i : Rat) + 1 ≤ (n : Rat) := by exact_mod_cast hi
+      linarith
+    have hd : 0 ≤ (N : Rat) / ((n : Rat) - 1) := div_nonneg hNr (le_of_lt hn1)
+    refine ⟨mul_nonneg hi0 hd, ?_, ?_, ?_⟩
+    · calc (i : Rat) * ((N : Rat) / ((n : Rat) - 1)) ≤ ((n : Rat) - 1) * ((N : Rat) / ((n : Rat) - 1)) :=
+            mul_le_mul_of_nonneg_right hi1 hd
+        _ = N := by field_simp
+    · intro h; simp [h]
+    · intro h
+      have : (i : Rat) = (n : Rat) - 1 := by
+        rw [h]; have : 1 ≤ n := by omega
+        push_cast [Nat.cast_sub this]; ring
+      rw [this]; field_simp
+  have memb : ∀ (i j : Nat), (i, j) ∈ edgeIndex n → i < n → j < n →
+      ((i : Rat) * ((g.nx : Rat) / ((n : Rat) - 1)), (j : Rat) * ((g.ny : Rat) / ((n : Rat) - 1))) ∈ boundary g n := by
+    intro i j hij hi hj
+    simp only [boundary, List.mem_filterMap]
+    exact ⟨(i, j), hij, by simp [linspace_get _ _ _ hn hi, linspace_get _ _ _ hn hj]⟩
+  refine ⟨?_, ?_, ?_, ?_, ?_⟩
+  · intro p hp
+    simp only [boundary, List.mem_filterMap] at hp
+    obtain ⟨ij, hij, hf⟩ := hp
+    obtain ⟨h1, h2, h3⟩ := edgeIndex_mem n hn ij hij
+    rw [linspace_get _ _ _ hn h1, linspace_get _ _ _ hn h2] at hf
+    simp only [Option.some.injEq] at hf
+    subst hf
+    obtain ⟨a1, a2, a3, a4⟩ := val g.nx ij.1 hnx h1
+    obtain ⟨b1, b2, b3, b4⟩ := val g.ny ij.2 hny h2
+    refine ⟨a1, a2, b1, b2, ?_⟩
+    rcases h3 with h | h | h | h
+    · exact Or.inl (a3 h)
+    · exact Or.inr (Or.inl (a4 h))
+    · exact Or.inr (Or.inr (Or.inl (b3 h)))
+    · exact Or.inr (Or.inr (Or.inr (b4 h)))
+  · have := memb 0 0 (by
+      simp only [edgeIndex, List.mem_append, List.mem_map, List.mem_range]
+      exact Or.inl (Or.inl (Or.inl ⟨0, by omega, rfl⟩))) (by omega) (by omega)
+    simpa using this
+  · have := memb (n - 1) 0 (by simp [edgeIndex]; omega) (by omega) (by omega)
+    rw [(val g.nx (n - 1) hnx (by omega)).2.2.2 rfl] at this
+    simpa using this
+  · have := memb (n - 1) (n - 1) (by
+      simp only [edgeIndex, List.mem_append, List.mem_map, List.mem_range]
+      exact Or.inl (Or.inl (Or.inr ⟨n - 2, by omega, Prod.ext rfl (by simp; omega)⟩))) (by omega) (by omega)
+    rw [(val g.nx (n - 1) hnx (by omega)).2.2.2 rfl, (val g.ny (n - 1) hny (by omega)).2.2.2 rfl] at this
+    exact this
+  · have := memb 0 (n - 1) (by simp [edgeIndex]; omega) (by omega) (by omega)
+    rw [(val g.ny (n - 1) hny (by omega)).2.2.2 rfl] at this
+    simpa using this
+
+/-- `buffered` with non-negative pads contains the parent: the parent is the window
+`[by : by+ny, bx : bx+nx]` of the buffered box. -/
+theorem buffered_contains_parent (g g' : GeoBox) (n m xb : Rat) (yb : Option Rat)
+    (h : buffered g n m xb yb = .ok g') (hny : 0 ≤ g.ny) (hnx : 0 ≤ g.nx)
+    (hgx : g.nx ≤ g'.nx) (hgy : g.ny ≤ g'.ny) :
+    ∃ bx by_ : Int, 0 ≤ bx ∧ 0 ≤ by_ ∧
+      crop g' (.two (.slc (some by_) (some (by_ + g.ny))) (.slc (some bx) (some (bx + g.nx)))) = g := by
+  obtain ⟨rx, ry, bx, by_, _, h1, h2, h3, hp, _⟩ := buffered_covers g g' n m xb yb h
+  have hbx : 0 ≤ bx := by omega
+  have hby : 0 ≤ by_ := by omega
+  refine ⟨bx, by_, hbx, hby, ?_⟩
+  have hA : g'.A = g.A * Aff.translation (-(bx : Rat)) (-(by_ : Rat)) := by
+    apply aff_ext_of_apply
+    intro p
+    have := hp p
+    simp only [pix2wld] at this
+    rw [this, Aff.apply_mul, Aff.apply_translation]
+    simp [sub_eq_add_neg]
+  have wr : ∀ (n a : Int), 0 ≤ a → wrapNeg n a = a := by intro n a ha; simp [wrapNeg, ha]
+  obtain ⟨ny', nx', A', crs'⟩ := g'
+  obtain ⟨ny, nx, A, crs⟩ := g
+  simp only at h1 h2 h3 hA hny hnx
+  subst hA h3
+  simp only [crop, normSlice]
+  rw [wr _ _ hbx, wr _ _ hby, wr _ (bx + nx) (by omega), wr _ (by_ + ny) (by omega)]
+  congr 1
+  · omega
+  · omega
+  · rw [Aff.mul_assoc']
+    have : Aff.translation (-(bx : Rat)) (-(by_ : Rat)) * Aff.translation (bx : Rat) (by_ : Rat) = Aff.id := by
+      simp only [Aff.mul_def, Aff.mul, Aff.translation, Aff.id]; ext <;> simp
+    rw [this, Aff.mul_id]
+
+
+/-! ## 9. composition with C08 (`from_bbox`) -/
+
+/-- `ceil(maybe_int(q, tol))` of C20's general model is this file's `snapCeil` for the quotients
+that occur in a tight snap (`q ≥ 0`, `0 < tol ≤ 1/2`). -/
+theorem maybeInt_ceil_eq_snapCeil (q tol : Rat) (hq : 0 ≤ q) (ht0 : 0 < tol) (ht : tol ≤ 1 / 2) :
+    (C20.maybeInt q tol).ceil = snapCeil q tol := by
+  have hfl : (q.floor : Rat) ≤ q := Rat.floor_le _
+  have hlt : q < (q.floor : Rat) + 1 := by have := Rat.lt_floor_add_one q; push_cast at this; exact this
+  have hfl0 : (0 : Rat) ≤ (q.floor : Rat) := by
+    have : (0 : Int) ≤ q.floor := by rw [Rat.le_floor_iff]; simpa using hq
+    exact_mod_cast this
+  have htr : C20.trunc q = q.floor := by simp [C20.trunc, hq]
+  have hpart : C20.fmod1 q = q - (q.floor : Rat) := by simp [C20.fmod1, htr]
+  unfold snapCeil C20.maybeInt C20.maybeInt? C20.splitFloat
+  simp only [hpart]
+  have sub_self' : q - (q - (q.floor : Rat)) = (q.floor : Rat) := by ring
+  by_cases h1 : q - (q.floor : Rat) > 1 / 2
+  · -- fractional part above one half: snaps up iff 1 - part < tol
+    have hn : ¬ (q - (q.floor : Rat) < tol) := by linarith
+    have hnotint : (q.floor : Rat) < q := by linarith
+    have hceil : q.ceil = q.floor + 1 := by
+      apply le_antisymm
+      · rw [Rat.ceil_le_iff]; push_cast; linarith
+      · have : q.floor < q.ceil := by
+          rw [Rat.lt_ceil_iff]; exact hnotint
+        omega
+    simp only [h1, if_true, hn, if_false, sub_self']
+    have habs : C20.rabs (q - (q.floor : Rat) - 1) = 1 - (q - (q.floor : Rat)) := by
+      have : q - (q.floor : Rat) - 1 < 0 := by linarith
+      simp [C20.rabs, this]
+    rw [habs]
+    by_cases h2 : 1 - (q - (q.floor : Rat)) < tol
+    · simp only [h2, if_true]
+      have : C20.trunc ((q.floor : Rat) + 1) = q.floor + 1 := by
+        have h0 : (0 : Rat) ≤ (q.floor : Rat) + 1 := by linarith
+        have e : ((q.floor : Rat) + 1) = ((q.floor + 1 : Int) : Rat) := by push_cast; ring
+        simp only [C20.trunc, h0, if_true]; rw [e, floor_intCast']
+      rw [this, ceil_intCast', hceil]
+    · simp only [h2, if_false]
+  · have h1' : ¬ (q - (q.floor : Rat) > 1 / 2) := h1
+    have h3 : ¬ (q - (q.floor : Rat) < -(1 / 2)) := by linarith
+    simp only [h1', if_false, h3, sub_self']
+    have habs : C20.rabs (q - (q.floor : Rat)) = q - (q.floor : Rat) := by
+      have : ¬ (q - (q.floor : Rat) < 0) := by linarith
+      simp [C20.rabs, this]
+    rw [habs]
+    by_cases h2 : q - (q.floor : Rat) < tol
+    · simp only [h2, if_true]
+      have : C20.trunc (q.floor : Rat) = q.floor := by
+        simp only [C20.trunc, hfl0, if_true]; rw [floor_intCast']
+      rw [this, ceil_intCast']
+    · simp only [h2, if_false]
+
+theorem min4_le_max4 (a b c d : Rat) : min4 a b c d ≤ max4 a b c d := by
+  unfold min4 max4
+  exact le_trans (le_trans (min_le_left _ _) (min_le_left _ _)) (le_trans (le_max_left _ _) (le_max_left _ _))
+
+/-- my one-axis tight snap is C20's `snap_grid(x0, x1, res, None, tol)` for `x0 ≤ x1` -/
+theorem snapGridTight_eq_snapGrid (x0 x1 res tol : Rat) (h01 : x0 ≤ x1) (ht0 : 0 < tol) (ht : tol ≤ 1 / 2) :
+    snapGridTight x0 x1 res tol = C20.snapGrid x0 x1 res none tol := by
+  unfold snapGridTight C20.snapGrid
+  by_cases hp : res > 0
+  · have hq : 0 ≤ (x1 - x0) / res := div_nonneg (by linarith) (le_of_lt hp)
+    simp only [hp, if_true, maybeInt_ceil_eq_snapCeil _ _ hq ht0 ht]
+  · by_cases hz : res = 0
+    · simp [hz]
+    · have hneg : 0 < -res := by
+        rcases lt_trichotomy res 0 with h | h | h
+        · linarith
+        · exact absurd h hz
+        · exact absurd h hp
+      have hq : 0 ≤ (x1 - x0) / (-res) := div_nonneg (by linarith) (le_of_lt hneg)
+      simp only [hp, if_false, hz, maybeInt_ceil_eq_snapCeil _ _ hq ht0 ht]
+
+/-- **Link C02 ∘ C08**: `gbox.zoom_to(resolution=(rx, ry))` *is* C08's
+`GeoBox.from_bbox(gbox.boundingbox, resolution=(rx, ry), tight=True)` (any anchor — `tight`
+overrides it — tolerance 0.01) carrying the parent's crs; so C08's covering / snapping theorems
+about `fromBbox` apply verbatim to the zoomed view of any (rotated, sheared) geobox. -/
+theorem zoom_to_res_is_from_bbox (g : GeoBox) (rx ry : Rat) (anchor : C08.AnchorArg) :
+    zoomToRes g rx ry =
+      (C08.fromBbox ⟨(boundingbox g).left, (boundingbox g).bottom, (boundingbox g).right, (boundingbox g).top⟩
+        true .none (.xy rx ry) anchor tolSnap).map
+        (fun b => (⟨b.ny, b.nx, b.affine, g.crs⟩ : GeoBox)) := by
+  have ht0 : (0 : Rat) < tolSnap := by decide +kernel
+  have ht : tolSnap ≤ 1 / 2 := by decide +kernel
+  have hx : (boundingbox g).left ≤ (boundingbox g).right := min4_le_max4 _ _ _ _
+  have hy : (boundingbox g).bottom ≤ (boundingbox g).top := min4_le_max4 _ _ _ _
+  have sn : C08.snapOf true (C08.normAnchor anchor) = none := by simp [C08.snapOf]
+  unfold zoomToRes C08.fromBbox
+  simp only [sn, C08.intShapeToRes, C08.ResArg.xy?, Option.map_none, bind, Except.bind, pure, Except.pure,
+    snapGridTight_eq_snapGrid _ _ _ _ hx ht0 ht, snapGridTight_eq_snapGrid _ _ _ _ hy ht0 ht]
+  cases C20.snapGrid (boundingbox g).left (boundingbox g).right rx none tolSnap with
+  | error e => rfl
+  | ok r1 =>
+    cases C20.snapGrid (boundingbox g).bottom (boundingbox g).top ry none tolSnap with
+    | error e => rfl
+    | ok r2 => rfl
+
 
 end OdcGeo.C02
